@@ -4,6 +4,7 @@ CONSTANTS
   MaxKK = 3
   MaxRd = 1
   NQ = 1
+  MaxPolls = 2
   MaxLatch = 1
   FileSteps = FALSE
   QKinds = {"zero", "past", "exact", "future"}
